@@ -744,10 +744,24 @@ func checkSearchDirection(r *Run, p *Prog) {
 	// the direction statement: if COND { hi = ... } else { lo = ... } (or mirrored)
 	var dir *ast.IfStmt
 	leftOnTrue := false
-	for _, st := range loop.Body.List {
+	for k, st := range loop.Body.List {
 		ifs, ok := st.(*ast.IfStmt)
-		if !ok || ifs.Else == nil {
+		if !ok {
 			continue
+		}
+		// the other side: the else branch, or - when the body ends the iteration with
+		// continue - the statements that follow the if in the loop body
+		var other ast.Node = ifs.Else
+		if ifs.Else == nil {
+			n := len(ifs.Body.List)
+			if n == 0 {
+				continue
+			}
+			br, isBr := ifs.Body.List[n-1].(*ast.BranchStmt)
+			if !isBr || br.Tok != token.CONTINUE || br.Label != nil {
+				continue
+			}
+			other = &ast.BlockStmt{List: loop.Body.List[k+1:]}
 		}
 		assigns := func(b ast.Node, o types.Object) bool {
 			hit := false
@@ -764,9 +778,9 @@ func checkSearchDirection(r *Run, p *Prog) {
 			return hit
 		}
 		switch {
-		case assigns(ifs.Body, hi) && assigns(ifs.Else, lo):
+		case assigns(ifs.Body, hi) && !assigns(ifs.Body, lo) && assigns(other, lo) && !assigns(other, hi):
 			dir, leftOnTrue = ifs, true
-		case assigns(ifs.Body, lo) && assigns(ifs.Else, hi):
+		case assigns(ifs.Body, lo) && !assigns(ifs.Body, hi) && assigns(other, hi) && !assigns(other, lo):
 			dir, leftOnTrue = ifs, false
 		}
 	}
